@@ -108,6 +108,7 @@ func checkC08(c *Ctx) {
 	c.importRules(configIntactRules, []string{"R3.7"}, "R8.10")                                                                                                   // axis mappings (notes, offsets) are read from an unmodified copy of the parsed configuration
 	c.importRulesWhere(checkC05, []string{"R5.4"}, "R8.12", func(k string) bool { return strings.Contains(k, "NoteEvent") && strings.HasSuffix(k, "/velocity") }) // the Note On of an emulated key has a velocity of at least 1 (with 0 it is a Note Off on the wire)
 	c.importRules(shiftRules, []string{"R6.19"}, "R8.13")                                                                                                         // the thresholds meet a position in -1..1: an unsigned one is converted whatever else the mapping says
+	c.importRulesWhere(requiredFieldRules, []string{"R10.13"}, "R8.15", func(k string) bool { return strings.Contains(k, "analog-type[key]") })                   // a direction sounds only a note the file gave it
 	c.importRules(repetitionRules, []string{"R6.21"}, "R8.14")                                                                                                    // notes, offsets and the deadzone are those of the mapping selected now, not a memo from before a mapping switch
 	c.importRules(repetitionRules, []string{"R6.17", "R6.4"}, "R8.11")                                                                                            // the first report of an axis is not dropped as a repetition of a position it never reported
 	c.MinCount("R8.1", 5)
